@@ -120,6 +120,7 @@ func (d capDesc) src() string {
 }
 
 func famCap() {
+	watchdog = 15 * time.Minute // programs at the 32767-node limit: a single Dump legitimately takes tens of seconds
 	r := rand.New(rand.NewSource(*fSeed))
 	var ds []capDesc
 	thorough := *fTier == "thorough"
